@@ -20,8 +20,9 @@ def parseDumps (s : String) : Option (List T) := (splitTerm "|" s).mapM T.undump
 
 def supsOf (t : T) : List Rat := t.splits.map (·.e.sup)
 
+/-- same branches in the same order, same lengths (the supports are what may change) -/
 def sameShape (a b : T) : Bool :=
-  a.splits.map (fun s => (s.below, s.tip)) == b.splits.map (fun s => (s.below, s.tip))
+  a.splits.map (fun s => (s.below, s.tip, s.e.len)) == b.splits.map (fun s => (s.below, s.tip, s.e.len))
 
 def outClass (s : String) : String :=
   if s.startsWith "panic" then "panic" else if s.startsWith "clifail" then "clifail" else s
@@ -63,6 +64,15 @@ def tieOne (name : String) (m : Out (List Rat)) (out : String) (after : Option T
   | .ok ms, some a =>
     if zipAll eq (supsOf a) ms then none else some (name ++ ": model supports " ++ showRatList ms)
   | _, _ => none
+
+def parseTriples (s : String) : Option (List (Nat × Nat × Int)) :=
+  (splitTerm "," s).mapM fun it =>
+    match it.splitOn ":" with
+    | [a, b, c] =>
+      match a.toNat?, b.toNat?, c.toInt? with
+      | some x, some y, some z => some (x, y, z)
+      | _, _, _ => none
+    | _ => none
 
 def handle (op : String) (f : List String) : Verdict :=
   match op, f with
@@ -109,6 +119,40 @@ def handle (op : String) (f : List String) : Verdict :=
         | _, some m => ⟨.tie, tags, m⟩
         | none, none => ⟨.pass, tags, ""⟩
     | _, _ => bad "C10.sup dumps"
+  | "mtd", [rd, bd, out, res] =>
+    match T.undump rd, T.undump bd, parseTriples res with
+    | some r, some b, some items =>
+      let n := ntips r
+      let ok := treeOK r && treeOK b && sameTaxa r b
+      let tags := ["mtd"] ++ tagIf ok "hyp-mtd_correct" ++ tagIf (items.any fun x => decide (x.2.2 ≥ 2)) "nontrivial" ++
+        tagIf (items.any fun x => x.2.1 == 1 && decide (x.2.2 == 1)) "early-stop-taken"
+      if out != "ok" then
+        (if ok then ⟨.oracle, tags, "MinTransferDist: outcome " ++ outClass out⟩ else ⟨.pass, "skip" :: tags, ""⟩)
+      else
+      -- every item: (branch index, absent, distance returned)
+      let check (x : Nat × Nat × Int) : Option (Bool × String) :=
+        match r.splits[x.1]? with
+        | none => some (false, "no such branch")
+        | some s =>
+          let absent := x.2.1 == 1
+          let p := topoDepth n s
+          let L := lightSide r.tipNames s.below
+          let present := containsSplit r.tipNames s.below b
+          -- oracle: the definition, wherever the shortcut may legitimately be asked for
+          if ok && (!absent || !present) && x.2.2 != ((minTransferPure L n b : Nat) : Int) then
+            some (true, "MinTransferDist " ++ toString x.2.2 ++ " is not the least transfer distance " ++
+              toString (minTransferPure L n b) ++ " (branch " ++ toString x.1 ++ ")")
+          else if x.2.2 != minTransferDist (lightOf n s) p n absent b then
+            some (false, "model distance " ++ toString (minTransferDist (lightOf n s) p n absent b) ++
+              " (branch " ++ toString x.1 ++ ", absent " ++ toString absent ++ ")")
+          else none
+      match items.filterMap check with
+      | [] => ⟨.pass, tags, ""⟩
+      | l =>
+        match l.find? (·.1) with
+        | some (_, m) => ⟨.oracle, tags, m⟩
+        | none => ⟨.tie, tags, (l.headD (false, "")).2⟩
+    | _, _, _ => bad "C10.mtd fields"
   | "inv", [rd1, bd1, fa1, ta1, rd2, bd2, fa2, ta2] =>
     match T.undump rd1, parseDumps bd1, T.undump fa1, T.undump ta1,
           T.undump rd2, parseDumps bd2, T.undump fa2, T.undump ta2 with
